@@ -2,6 +2,7 @@ package ftdc
 
 import (
 	"context"
+	"github.com/mongodb/ftdc/verifhook"
 
 	"github.com/evergreen-ci/birch"
 )
@@ -32,6 +33,7 @@ func (c *Chunk) streamFlattenedDocuments(ctx context.Context) <-chan *birch.Docu
 				doc.Append(elem)
 			}
 
+			verifhook.Point("sample.send")
 			select {
 			case out <- doc:
 				continue
@@ -52,6 +54,7 @@ func (c *Chunk) streamDocuments(ctx context.Context) <-chan *birch.Document {
 
 		for i := 0; i < c.nPoints; i++ {
 			doc, _ := restoreDocument(c.reference, i, c.Metrics, 0)
+			verifhook.Point("sample.send")
 			select {
 			case <-ctx.Done():
 				return
